@@ -199,6 +199,15 @@ def verify_function(repo, qual, con, types, contracts, specfuns=None, timeout_ms
         fr.fingerprint = hashlib.sha256("\n".join(sorted(E.touched)).encode()).hexdigest()[:16]
     except Exception:
         pass
+    if fr.status == "left-subset" and E.obligations:
+        # The function left the subset on SOME path.  Obligations generated before that are still sound statements about
+        # feasible paths of the real code: a REFUTED one (the solver has a counter-model) is reported, and so is one that was
+        # discharged on the unchanged tree and is `unknown` now that the source changed (same rule as for functions inside
+        # the subset, applied in main); everything else about this function stays unclaimed.
+        for ob in E.obligations:
+            r = discharge(ob, min(timeout_ms, 5000), slice_first=bool(con.get("slice_first")))
+            if r["verdict"] in ("refuted", "unknown"):
+                fr.obligations.append(r)      # main keeps an `unknown` only under the passed-before / source-changed rule
     if fr.status == "ok":
         import sys
         trace = os.environ.get("PYVC_TRACE")
